@@ -166,6 +166,8 @@ def exec_case(case):
                 elif op == "rotate":
                     T.rotate(live[ev["m"] - 1], np.array(ROT[ev["r"]], dtype=float), vec(ev["o"]) if ev.get("useo") else None)
                 elif op == "normalize":
+                    if ev.get("tiny", 0):
+                        T.scale(live[ev["m"] - 1], 3e-9)       # normalisation does not depend on the size the mesh had: same expected result
                     T.normalize(live[ev["m"] - 1], center_at_zero=bool(ev["centred"]))
                 elif op == "edit_inplace":
                     live[ev["m"] - 1].vertices[ev["i"] - 1][:] = [float(fr(x)) for x in ev["c"]]
@@ -246,7 +248,7 @@ def _random_case(rng, idx):
                 b["norm"] = 0
                 b["pyth"] = 0
                 b["half"] = 0
-                evs.append({"op": "normalize", "m": m, "centred": rng.randint(0, 1)})
+                evs.append({"op": "normalize", "m": m, "centred": rng.randint(0, 1), "tiny": rng.choice([0, 0, 1])})
         elif r < 0.92:
             evs.append({"op": "edit_inplace", "m": m, "i": 1, "c": [[rng.randint(-4, 4), 1] for _ in range(3)]})
         else:
